@@ -245,6 +245,159 @@ Section CatalogProofs.
     rewrite (taken_of_existing db name name d E (ci_eqb_refl name)) in H. discriminate.
   Qed.
 
+  (* ---------------------------------------------------------------- register_multiple_tables *)
+  Lemma name_taken_filter db f name : name_taken K (filter f db) name = true -> name_taken K db name = true.
+  Proof.
+    unfold name_taken. rewrite !existsb_exists. intros [x [Hin Hx]]. apply filter_In in Hin. exists x. tauto.
+  Qed.
+  Lemma name_taken_aset_other db a e b :
+    name_taken K db b = false -> ci_eqb a b = false -> name_taken K (aset db (PL (LPlain a)) e) b = false.
+  Proof.
+    intros Hn Hc. unfold Cache.aset. unfold name_taken. cbn [existsb fst same_name]. rewrite Hc. cbn.
+    destruct (existsb (fun kv => same_name K b (fst kv)) (Cache.aremove K keqb db (PL (LPlain a)))) eqn:E; auto.
+    unfold Cache.aremove in E. apply (name_taken_filter db _ b) in E. rewrite E in Hn. discriminate.
+  Qed.
+  Lemma ci_distinct_combine aliases : forall (items : list reg_item),
+    ci_distinct aliases = true -> ci_distinct (map snd (combine items aliases)) = true.
+  Proof.
+    induction aliases as [|a r IH]; intros items H; [destruct items; reflexivity|].
+    destruct items as [|i items]; [reflexivity|]. cbn in *. apply andb_true_iff in H. destruct H as [H1 H2].
+    rewrite (IH items H2), andb_true_r. apply negb_true_iff in H1. apply negb_true_iff.
+    destruct (existsb (ci_eqb a) (map snd (combine items r))) eqn:E; auto.
+    apply existsb_exists in E. destruct E as [x [Hin Hx]]. apply in_map_iff in Hin. destruct Hin as [[i0 x0] [<- Hin]].
+    apply in_combine_r in Hin. assert (X : existsb (ci_eqb a) r = true) by (apply existsb_exists; eauto).
+    rewrite X in H1. discriminate.
+  Qed.
+  Lemma reg_clashes_nil db pairs :
+    reg_clashes K db pairs = [] ->
+    forall p, In p pairs -> is_frame (fst p) = true -> name_taken K db (snd p) = false.
+  Proof.
+    unfold reg_clashes. intros H p Hin Hf. apply map_eq_nil in H.
+    destruct (name_taken K db (snd p)) eqn:E; auto.
+    assert (X : In p (filter (fun p => is_frame (fst p) && name_taken K db (snd p)) pairs))
+      by (apply filter_In; split; auto; rewrite Hf, E; reflexivity).
+    rewrite H in X. destruct X.
+  Qed.
+
+  (* the registration loop on aliases that are free and pairwise different: invariants kept, every existing named entry kept *)
+  Lemma reg_frames_inv pairs : forall s,
+    CInv s ->
+    (forall p, In p pairs -> is_frame (fst p) = true -> name_taken K (st_db K s) (snd p) = false) ->
+    ci_distinct (map snd pairs) = true ->
+    CInv (reg_frames K keqb s pairs) /\ kept s (reg_frames K keqb s pairs) /\
+    st_fix K (reg_frames K keqb s pairs) = st_fix K s.
+  Proof.
+    induction pairs as [|[i a] r IH]; intros s Hi Hfree Hd; [cbn; split; [exact Hi|split; [apply kept_refl|reflexivity]]|].
+    cbn in Hd. apply andb_true_iff in Hd. destruct Hd as [Hd1 Hd2]. apply negb_true_iff in Hd1.
+    unfold reg_frames. cbn [fold_left fst snd]. fold (reg_frames K keqb).
+    destruct i as [t|ver].
+    - apply IH; auto. intros p Hin. apply Hfree. right. exact Hin.
+    - assert (Ht : name_taken K (st_db K s) a = false) by (apply (Hfree (RFrame ver, a)); [left; reflexivity|reflexivity]).
+      assert (Em : amem (st_db K s) (PL (LPlain a)) = false).
+      { unfold Cache.amem. destruct (aget (st_db K s) (PL (LPlain a))) eqn:E; auto.
+        assert (X : name_taken K (st_db K s) a = true).
+        { apply (aget_In K keqb keqb_spec) in E. unfold name_taken. apply existsb_exists.
+          exists (PL (LPlain a), d). split; auto. cbn. unfold ci_eqb. apply String.eqb_refl. }
+        rewrite X in Ht. discriminate. }
+      destruct Hi as (I & Hs & C).
+      set (s1 := register_leaf K keqb s (LPlain a) (PInput a ver)).
+      assert (A : CInv s1).
+      { unfold s1, register_leaf. split; [|split].
+        - pose proof (InvS_register_leaf K keqb hash keqb_spec s (LPlain a) {| e_prov := PInput a ver; e_origin := Caller |}
+                        (st_ctr K s) I Em (le_n _)) as H.
+          destruct s; apply H. intros b u X; discriminate.
+        - unfold CacheP.Sound. cbn. apply (sound_register_leaf K keqb hash keqb_spec); auto.
+        - intros p e. cbn. rewrite (aget_aset K keqb keqb_spec).
+          destruct (pname_eqb K keqb (PL (LPlain a)) p) eqn:E.
+          + apply (pname_eqb_spec K keqb keqb_spec) in E. subst. intros H. inversion H; subst. cbn. split; discriminate.
+          + apply C. }
+      assert (B : kept s s1).
+      { intros l0 e0 H. unfold s1, register_leaf. cbn. rewrite (aget_aset_other K keqb keqb_spec); auto.
+        intros X. inversion X; subst. unfold Cache.amem in Em. rewrite H in Em. discriminate. }
+      assert (F : forall p, In p r -> is_frame (fst p) = true -> name_taken K (st_db K s1) (snd p) = false).
+      { intros p Hin Hf. unfold s1, register_leaf. cbn. apply name_taken_aset_other.
+        - apply Hfree; [right; exact Hin|exact Hf].
+        - destruct (ci_eqb a (snd p)) eqn:E; auto.
+          assert (X : existsb (ci_eqb a) (map snd r) = true) by (apply existsb_exists; exists (snd p); split; [apply in_map; exact Hin|exact E]).
+          rewrite X in Hd1. discriminate. }
+      destruct (IH s1 A F Hd2) as (A2 & B2 & F2).
+      split; [exact A2|split; [exact (kept_trans _ _ _ B B2)|etransitivity; [exact F2|reflexivity]]].
+  Qed.
+
+  (* alignment: whatever the overwrite flag, register_multiple_tables touches only names that are (up to letter case) the alias
+     of a FRAME item; the alias of a by-name item is a label and no table of that name is dropped or replaced *)
+  Lemma aget_filter_key (g : pname K -> bool) (db : db_t K) k :
+    g k = true -> aget (filter (fun kv => g (fst kv)) db) k = aget db k.
+  Proof.
+    intros Hg. induction db as [|[k' v] r IH]; cbn; auto.
+    destruct (g k') eqn:E; cbn.
+    - destruct (pname_eqb K keqb k' k); auto.
+    - destruct (pname_eqb K keqb k' k) eqn:E2; auto.
+      apply (pname_eqb_spec K keqb keqb_spec) in E2. subst. rewrite Hg in E. discriminate.
+  Qed.
+  Lemma reg_drop_existing_spares pairs : forall db l e,
+    aget db (PL l) = Some e ->
+    (forall p, In p pairs -> is_frame (fst p) = true -> same_name K (snd p) (PL l) = false) ->
+    aget (reg_drop_existing K db pairs) (PL l) = Some e.
+  Proof.
+    induction pairs as [|p r IH]; intros db l e H Hp; [exact H|].
+    unfold reg_drop_existing. cbn [fold_left]. fold (reg_drop_existing K).
+    apply IH; [|intros q Hq; apply Hp; right; exact Hq].
+    destruct (is_frame (fst p) && name_taken K db (snd p)) eqn:E; [|exact H].
+    apply andb_true_iff in E. destruct E as [Ef _].
+    unfold drop_name. rewrite (aget_filter_key (fun k => negb (same_name K (snd p) k))); [exact H|].
+    rewrite (Hp p (or_introl eq_refl) Ef). reflexivity.
+  Qed.
+  Lemma reg_frames_spares pairs : forall s l e,
+    aget (st_db K s) (PL l) = Some e ->
+    (forall p, In p pairs -> is_frame (fst p) = true -> same_name K (snd p) (PL l) = false) ->
+    aget (st_db K (reg_frames K keqb s pairs)) (PL l) = Some e.
+  Proof.
+    induction pairs as [|[i a] r IH]; intros s l e H Hp; [exact H|].
+    unfold reg_frames. cbn [fold_left fst snd]. fold (reg_frames K keqb).
+    apply IH; [|intros q Hq; apply Hp; right; exact Hq].
+    destruct i as [t|ver]; [exact H|].
+    unfold register_leaf. cbn. rewrite (aget_aset_other K keqb keqb_spec); [exact H|].
+    intros X. inversion X; subst. pose proof (Hp (RFrame ver, a) (or_introl eq_refl) eq_refl) as Y.
+    cbn in Y. rewrite ci_eqb_refl in Y. discriminate.
+  Qed.
+  Theorem register_multiple_touches_frame_aliases_only s items aliases ow l e :
+    aget (st_db K s) (PL l) = Some e ->
+    (forall ver a, In (RFrame ver, a) (combine items aliases) -> same_name K a (PL l) = false) ->
+    aget (st_db K (fst (cstep s (CRegisterMultiple K items aliases ow)))) (PL l) = Some e.
+  Proof.
+    intros H Hp.
+    assert (Hp' : forall p, In p (combine items aliases) -> is_frame (fst p) = true -> same_name K (snd p) (PL l) = false).
+    { intros [i a] Hin Hf. destruct i; [discriminate|]. cbn. eapply Hp; eauto. }
+    cbn. unfold register_multiple. destruct ow.
+    - cbn. apply reg_frames_spares; auto. cbn. apply reg_drop_existing_spares; auto.
+    - destruct (reg_clashes K (st_db K s) (combine items aliases)); cbn; [apply reg_frames_spares; auto|exact H].
+  Qed.
+
+  (* a frame whose alias names an existing object (up to letter case): the whole call is refused, nothing changes *)
+  Theorem register_multiple_refused s items aliases ver a existing :
+    In (RFrame ver, a) (combine items aliases) ->
+    amem (st_db K s) (PL (LPlain existing)) = true -> ci_eqb existing a = true ->
+    exists evs, cstep s (CRegisterMultiple K items aliases false) = (s, evs) /\ In (Refused a) evs.
+  Proof.
+    intros Hin Hm Hc. cbn. unfold register_multiple.
+    assert (Ht : name_taken K (st_db K s) a = true).
+    { unfold Cache.amem in Hm. destruct (aget (st_db K s) (PL (LPlain existing))) eqn:E; [|discriminate].
+      eapply taken_of_existing; eauto. }
+    assert (X : In a (reg_clashes K (st_db K s) (combine items aliases))).
+    { unfold reg_clashes. apply in_map_iff. exists (RFrame ver, a). split; [reflexivity|]. apply filter_In. split; [exact Hin|]. cbn. exact Ht. }
+    destruct (reg_clashes K (st_db K s) (combine items aliases)) eqn:Ec; [destruct X|].
+    eexists. split; [reflexivity|]. apply in_map. exact X.
+  Qed.
+
+  (* register_table(frame, name, overwrite) IS register_multiple_tables([frame], [name], overwrite) *)
+  Theorem register_table_is_singleton s name ow ver :
+    cstep s (CRegisterTable name ow ver) = cstep s (CRegisterMultiple K [RFrame ver] [name] ow).
+  Proof.
+    cbn. unfold register_multiple, reg_clashes, reg_drop_existing, reg_frames, drop_name. cbn.
+    destruct (name_taken K (st_db K s) name); destruct ow; cbn; try reflexivity; destruct s; reflexivity.
+  Qed.
+
   Lemma evict_cat s : InvS s -> CatOK s -> CatOK (evict_cwtf K keqb s) /\ kept s (evict_cwtf K keqb s).
   Proof.
     intros I C. unfold evict_cwtf. destruct (aget (st_cache K s) (named K CWTF)) eqn:E; [|split; [exact C|apply kept_refl]].
@@ -273,6 +426,11 @@ Section CatalogProofs.
       pose proof (not_taken_absent _ _ Et) as Em.
       destruct (register_leaf_inv s (LPlain name) (PInput name ver) (conj I (conj Hs C)) Em) as [A B]; [intros b u X; discriminate|].
       split; [exact A|split; [exact B|reflexivity]].
+    - (* CRegisterMultiple *)
+      apply andb_true_iff in Hok. destruct Hok as [Ho Hd]. apply negb_true_iff in Ho. subst overwrite.
+      unfold register_multiple. destruct (reg_clashes K (st_db K s) (combine items aliases)) eqn:Ec; cbn -[reg_frames];
+        [|split; [split; [|split]; auto|split; [apply kept_refl|auto]]].
+      exact (reg_frames_inv (combine items aliases) s (conj I (conj Hs C)) (reg_clashes_nil _ _ Ec) (ci_distinct_combine aliases items Hd)).
     - (* CRegisterByName *)
       set (h := {| h_templ := slot_name k; h_phys := PL (LPlain name); h_src := Leaf (LPlain name); h_cbs := false |}).
       set (s1 := set_cache K s (aset (st_cache K s) (named K (slot_name k)) h)).
